@@ -40,6 +40,11 @@ CHECKS.update({
    note="Process-global switch owned by single-threaded workers.",
    design_ref="§3 C15"),
 })
+CHECKS["C06"] = dict(level="exploration", engine="sdoc-explorer",
+   technique="bounded exhaustive enumeration of recursion-shaped stack-free grammars; exact divergence detection in S_doc confirmed by executing the real VM in a sacrificial child; syntactic guardedness predicate for the completeness half",
+   text="Every operator context (nested to depth 2, 3 in the thorough tier) around a reference closing a cycle of length 1-3 through rules of every modifier, every small WHITESPACE/COMMENT body, the plain size-ordered corpus and acyclic controls: if pest accepts the grammar, S_doc (whose cycle criterion is exact for stack-free grammars) must not diverge on any rule and input up to the bound, and each divergence is confirmed on the real engine (stack overflow / timeout in a child process) before it is reported; every grammar satisfying the guarded predicate of DESIGN Appendix C must be accepted.",
+   note="Stack-free grammars only (as the property states); rejection for the unrelated grammar-extras rule 'tags on silent rules' is excluded and counted.",
+   design_ref="§3 C06, Appendix C")
 PENDING = {}
 
 checks = []
